@@ -333,6 +333,7 @@ impl<'a> Enumerator<'a> {
             return;
         }
         self.out.nodes += 1;
+        crate::watchdog::beat();
         let mut mm = m.clone();
         let stopped = mm.is_stopped();
         if (stopped && mm.stop_reason().is_ok()) || (!stopped && mm.is_accepting().unwrap_or(false)) {
@@ -512,6 +513,7 @@ impl<'a> CharEnum<'a> {
             return;
         }
         self.nodes += 1;
+        crate::watchdog::beat();
         let mut mm = m.clone();
         let stopped = mm.is_stopped();
         if !in_str && ((stopped && mm.stop_reason().is_ok()) || (!stopped && mm.is_accepting().unwrap_or(false))) {
